@@ -164,6 +164,15 @@ def classify(run, side, unit_file):
         elif kind == "assertion":
             c = clause_at(pline) if pline else None
             ob["label"] = "assert"
+        if not ob.get("core") and ob.get("label") in (None, "assert", "std-trait-postcondition") and ob.get("fn"):
+            # an unlabelled invariant / proof assertion / operator postcondition inside function F: F's contract is not
+            # established, so the failure counts against every property one of F's clauses is core for
+            u = set()
+            for c in clauses:
+                if c["fn"] == ob["fn"]:
+                    u.update(c.get("core") or [])
+            ob["core"] = sorted(u)
+            ob["core_inherited"] = True
         res["failed"].append(ob)
     res["canary_hits"] = sorted(res["canary_hits"])
     return res
